@@ -19,8 +19,8 @@ Progs == Batch.programs
 Traces == Batch.traces
 NT == Len(Traces)
 
-VARIABLES t, l, st, g, viol, sem, out, done
-vars == <<t, l, st, g, viol, sem, out, done>>
+VARIABLES t, l, st, g, viol, sem, out, done, hist
+vars == <<t, l, st, g, viol, sem, out, done, hist>>
 
 MaxOf(S) == CHOOSE i \in S : \A j \in S : j <= i
 LastIdx(seq, Pred(_)) == LET I == {i \in 1..Len(seq) : Pred(seq[i])} IN IF I = {} THEN 0 ELSE MaxOf(I)
@@ -158,7 +158,7 @@ CheckQuiescent(P, T, S, ln) ==
                  : i \in 1..Len(ln.pending)}
      ELSE {})
 
-ErrMatches(v, S) == v \in S \/ (v[1] = "exc" /\ \E c \in S : c[1] = "unknown_label")
+ErrMatches(v, S) == v \in S \/ (v[1] = "dag_error" /\ \E c \in S : c[1] = "unknown_label")
 
 CheckReturn(P, T, sm, s, ln) ==
     LET kind == ln.kind
@@ -177,8 +177,7 @@ CheckReturn(P, T, sm, s, ln) ==
       \cup
       (IF kind = "raised" /\ ~IsBaseTok(v) THEN {"C05.noraise"} ELSE {})
       \cup
-      (IF kind = "error" /\ v[1] = "exc" /\ ~ErrMatches(v, IF sr[1] = "F" THEN sr[2] ELSE {})
-       THEN {"C05.noartefact"} ELSE {})
+      (IF kind = "error" /\ v[1] \in {"exc", "err_copy"} THEN {"C05.noartefact"} ELSE {})
       \cup
       (IF T.amb THEN {}
        ELSE CASE sr[1] = "V" ->
@@ -192,6 +191,11 @@ CheckReturn(P, T, sm, s, ln) ==
                             ELSE IF kind = "raised" THEN (IF v \in base THEN {} ELSE {"C05.cause"})
                             ELSE {}
               [] OTHER -> {})
+      \cup
+      (* schedule independence: every execution of this program gave run r the same outcome so far *)
+      (IF \E h \in hist : h[1] = ln.r /\ (h[2] # kind \/ (kind = "value" /\ h[3] # v)
+                                         \/ (kind = "error" /\ ~T.amb /\ sr[1] = "F" /\ Cardinality(sr[2]) = 1 /\ h[3] # v))
+       THEN {"C01.det"} ELSE {})
       \cup
       (IF s.fresh # <<>> /\ (s.fresh[1] # kind \/ (kind = "value" /\ s.fresh[2] # v))
        THEN (IF T.overlap THEN {"C08.solo"} ELSE {"C07.fresh"}) ELSE {})
@@ -220,7 +224,7 @@ CheckReturn(P, T, sm, s, ln) ==
        ELSE {})
 
 CheckPostRun(P, T, S, ln) ==
-    (IF ln.live > 0 \/ ln.drain_steps > 50 + 20 * Len(P.ids) THEN {"C13.drain"} ELSE {})
+    (IF ~ln.stuck /\ (ln.live > 0 \/ ln.drain_steps > 50 + 20 * Len(P.ids)) THEN {"C13.drain"} ELSE {})
     \cup (IF ln.stuck THEN {"C02.stuck"} ELSE {})
     \cup (IF ln.truncated THEN {"C02.livelock"} ELSE {})
 
@@ -268,7 +272,7 @@ CheckLine(P, T, S, ln) ==
       [] OTHER -> {}
 
 Init ==
-    /\ t = 1 /\ l = 1 /\ viol = {} /\ out = <<>> /\ done = FALSE /\ g = InitG
+    /\ t = 1 /\ l = 1 /\ viol = {} /\ out = <<>> /\ done = FALSE /\ g = InitG /\ hist = {}
     /\ st = IF NT = 0 THEN <<>> ELSE InitSt(Traces[1])
     /\ sem = IF NT = 0 THEN <<>> ELSE SemOf(Traces[1])
 
@@ -282,6 +286,8 @@ Consume ==
            /\ g' = IF ln.e = "Snap" /\ g.snap = <<>>
                    THEN [g EXCEPT !.snap = [graph |-> ln.graph, classes |-> ln.classes]]
                    ELSE g
+           /\ hist' = IF ln.e = "RunReturn" /\ ~st[ln.r].cancelled
+                      THEN hist \cup {<<ln.r, ln.kind, ln.v>>} ELSE hist
     /\ l' = l + 1
     /\ UNCHANGED <<t, sem, out, done>>
 
@@ -293,13 +299,14 @@ EndTrace ==
        THEN /\ st' = InitSt(Traces[t + 1])
             /\ sem' = IF Traces[t + 1].pi = Traces[t].pi THEN sem ELSE SemOf(Traces[t + 1])
        ELSE /\ st' = <<>> /\ sem' = <<>>
+    /\ hist' = IF t + 1 <= NT /\ Traces[t + 1].pi = Traces[t].pi THEN hist ELSE {}
     /\ UNCHANGED done
 
 Finish ==
     /\ t > NT /\ ~done
     /\ JsonSerialize(IOEnv.OUT_FILE, out)
     /\ done' = TRUE
-    /\ UNCHANGED <<t, l, st, g, viol, sem, out>>
+    /\ UNCHANGED <<t, l, st, g, viol, sem, out, hist>>
 
 Next == Consume \/ EndTrace \/ Finish
 Spec == Init /\ [][Next]_vars
